@@ -20,7 +20,8 @@ EXTENDS Handover, Json
 CONSTANTS Drops,   \* TRUE: drop at any point; FALSE: a child only closes when idle (all request sequences, no faults)
           Exits,   \* TRUE: the signalled parent may exit while a child is still there
           Pauses,  \* TRUE: the served child may stay silent for a long time between two requests (event "pause")
-          Faults   \* TRUE: accept may fail transiently while a child is connecting (event "acceptfault")
+          Faults,  \* TRUE: accept may fail transiently while a child is connecting (event "acceptfault")
+          Pipelines \* TRUE: the served child may write its next request while the parent is inside a step (needs PipelinedChild)
 
 VARIABLES hist, finished
 gvars == <<vars, hist, finished>>
@@ -57,7 +58,10 @@ GenNext ==
      \/ \E c \in Children :
           \/ Quiet /\ ChildConnect(c) /\ Log("connect", c, "")
           \/ Quiet /\ ChildRefused(c) /\ Log("refused", c, "")
-          \/ Quiet /\ (\E t \in Requests : ChildSend(c, t) /\ Log("send", c, t))
+          \/ Quiet /\ st[c] = "conn" /\ (\E t \in Requests : ChildSend(c, t) /\ Log("send", c, t))
+          \* pipelined: written while the parent is inside the step of the previous request (the replayer holds it there)
+          \/ Pipelines /\ pc = "step" /\ c = serving /\ st[c] = "wait"
+               /\ (\E t \in Requests : ChildSend(c, t) /\ Log("send", c, t))
           \* only on the connection being served: a malformed unit gets no reply, so the replayer can only
           \* tell that it was read (one frame = one read unit) when the parent is reading this connection
           \/ Quiet /\ c = serving /\ ChildSendBad(c) /\ Log("sendbad", c, "")
